@@ -60,7 +60,7 @@ fn uri() -> Uri {
     Uri::from_static(URI)
 }
 
-//@ {"tier":"quick","unwind":2,"stubs":["lossy_ascii","drop_even","drop_odd","bm","canon","block_on","reserve"],"desc":"Get-Job-Attributes / Cancel-Job builders: op code, version, request-id, charset, language, printer-uri, job-id (any i32), requesting-user-name (any 3 chars; second call replaces the first) and nothing else","sym":"job id i32, 2 x 3 name bytes"}
+//@ {"tier":"quick","unwind":2,"stubs":["lossy_ascii","drop_even","drop_odd","bm","canon","block_on","reserve","fmt"],"desc":"Get-Job-Attributes / Cancel-Job builders: op code, version, request-id, charset, language, printer-uri, job-id (any i32), requesting-user-name (any 3 chars; second call replaces the first) and nothing else","sym":"job id i32, 2 x 3 name bytes"}
 pub fn c10_job_ops(inp: &mut Inp) {
     let id = inp.i32();
     let n1 = [inp.ascii(), inp.ascii(), inp.ascii()];
@@ -82,7 +82,7 @@ pub fn c10_job_ops(inp: &mut Inp) {
     reached();
 }
 
-//@ {"tier":"quick","unwind":2,"stubs":["lossy_ascii","drop_even","drop_odd","bm","canon","block_on","reserve"],"desc":"Send-Document builder: op code, job-id (any), last-document (default true; any flag given; last call wins), user name, payload bytes attached unmodified","sym":"job id i32, 2 flags, 2 name bytes, 3 payload bytes"}
+//@ {"tier":"quick","unwind":2,"stubs":["lossy_ascii","drop_even","drop_odd","bm","canon","block_on","reserve","fmt"],"desc":"Send-Document builder: op code, job-id (any), last-document (default true; any flag given; last call wins), user name, payload bytes attached unmodified","sym":"job id i32, 2 flags, 2 name bytes, 3 payload bytes"}
 pub fn c10_send_document(inp: &mut Inp) {
     let id = inp.i32();
     let f1 = inp.bool();
@@ -116,7 +116,7 @@ pub fn c10_send_document(inp: &mut Inp) {
     reached();
 }
 
-//@ {"tier":"quick","unwind":2,"stubs":["lossy_ascii","drop_even","drop_odd","bm","canon","block_on","reserve"],"desc":"Print-Job builder: user name, job title as job-name (name), job attributes in the job group (same name twice: last wins), payload attached; Create-Job: job-name + job attributes","sym":"2+2 name bytes, 3 x i32 attribute values, 2 payload bytes"}
+//@ {"tier":"quick","unwind":2,"stubs":["lossy_ascii","drop_even","drop_odd","bm","canon","block_on","reserve","fmt"],"desc":"Print-Job builder: user name, job title as job-name (name), job attributes in the job group (same name twice: last wins), payload attached; Create-Job: job-name + job attributes","sym":"2+2 name bytes, 3 x i32 attribute values, 2 payload bytes"}
 pub fn c10_print_create(inp: &mut Inp) {
     let un = [inp.ascii(), inp.ascii()];
     let jt = [inp.ascii(), inp.ascii()];
@@ -182,7 +182,7 @@ fn kw_list(g: &IppAttributeGroup, want: &[&[u8]]) {
     }
 }
 
-//@ {"tier":"quick","unwind":2,"stubs":["lossy_ascii","drop_even","drop_odd","bm","canon","block_on","reserve"],"desc":"Get-Printer-Attributes builder: 0 names -> no requested-attributes; exactly 1 name; 3 names via attribute()+attributes() in the order given (any 2-char names)","sym":"3 x 2 name bytes"}
+//@ {"tier":"quick","unwind":2,"stubs":["lossy_ascii","drop_even","drop_odd","bm","canon","block_on","reserve","fmt"],"desc":"Get-Printer-Attributes builder: 0 names -> no requested-attributes; exactly 1 name; 3 names via attribute()+attributes() in the order given (any 2-char names)","sym":"3 x 2 name bytes"}
 pub fn c10_get_printer_attributes(inp: &mut Inp) {
     let a = [inp.ascii(), inp.ascii()];
     let b = [inp.ascii(), inp.ascii()];
@@ -210,7 +210,7 @@ pub fn c10_get_printer_attributes(inp: &mut Inp) {
     reached();
 }
 
-//@ {"tier":"quick","unwind":2,"stubs":["lossy_ascii","drop_even","drop_odd","bm","canon","block_on","reserve"],"desc":"Purge-Jobs, Get-Jobs (with/without user name), CUPS-Get-Printers (no target), CUPS-Delete-Printer: codes and exact attribute sets","sym":"2 name bytes"}
+//@ {"tier":"quick","unwind":2,"stubs":["lossy_ascii","drop_even","drop_odd","bm","canon","block_on","reserve","fmt"],"desc":"Purge-Jobs, Get-Jobs (with/without user name), CUPS-Get-Printers (no target), CUPS-Delete-Printer: codes and exact attribute sets","sym":"2 name bytes"}
 pub fn c10_simple_ops(inp: &mut Inp) {
     let un = [inp.ascii(), inp.ascii()];
     let r = IppOperationBuilder::purge_jobs(uri()).user_name(ascii_str(&un)).build().into_ipp_request();
